@@ -1,0 +1,97 @@
+//go:build verif
+
+package pool
+
+import (
+	"fmt"
+	"os"
+	"sync"
+	"unsafe"
+
+	"github.com/IrineSistiana/bytespool"
+)
+
+// Verification hook (build tag "verif"): released buffers are poisoned and
+// parked in a FIFO quarantine before they really go back to the byte pool.
+//
+//   - The poison fill is a write at release time: under the race detector any
+//     unsynchronised reader or writer of a released buffer is reported,
+//     whatever the timing; a reader ordered after the release sees poison.
+//   - A second release of a buffer that is still parked is detected.
+//   - When a buffer leaves the quarantine its poison must be intact (else
+//     somebody wrote after release). It is then refilled with a byte that
+//     differs from call to call, so that "stale" pool content is never stable.
+//
+// Violations print a line starting with "VERIF-CANARY" and abort the process.
+const (
+	vfPoison        = 0xDB
+	vfQuarantineLen = 2048
+)
+
+var vfQ struct {
+	sync.Mutex
+	ring   [vfQuarantineLen]Buffer
+	head   int
+	n      int
+	parked map[unsafe.Pointer]struct{}
+	seq    uint32
+}
+
+func vfAbort(format string, args ...any) {
+	fmt.Fprintf(os.Stderr, "VERIF-CANARY: "+format+"\n", args...)
+	os.Exit(98)
+}
+
+func vfOnRelease(b Buffer) bool {
+	c := cap(b)
+	if c == 0 {
+		return false
+	}
+	full := b[:c]
+	p := unsafe.Pointer(unsafe.SliceData(full))
+
+	vfQ.Lock()
+	if vfQ.parked == nil {
+		vfQ.parked = make(map[unsafe.Pointer]struct{}, vfQuarantineLen)
+	}
+	if _, dup := vfQ.parked[p]; dup {
+		vfQ.Unlock()
+		vfAbort("double release of a pool buffer (cap %d)", c)
+	}
+	for i := range full {
+		full[i] = vfPoison
+	}
+	var out Buffer
+	if vfQ.n == vfQuarantineLen {
+		out = vfQ.ring[vfQ.head]
+		vfQ.ring[vfQ.head] = full
+		vfQ.head = (vfQ.head + 1) % vfQuarantineLen
+	} else {
+		vfQ.ring[(vfQ.head+vfQ.n)%vfQuarantineLen] = full
+		vfQ.n++
+	}
+	vfQ.parked[p] = struct{}{}
+	var fill byte
+	if out != nil {
+		delete(vfQ.parked, unsafe.Pointer(unsafe.SliceData(out)))
+		vfQ.seq++
+		fill = byte(vfQ.seq*31 + 7)
+		if fill == vfPoison {
+			fill++
+		}
+	}
+	vfQ.Unlock()
+
+	if out != nil {
+		for i, v := range out {
+			if v != vfPoison {
+				vfAbort("write after release: pool buffer (cap %d) changed at offset %d while quarantined", len(out), i)
+			}
+		}
+		for i := range out {
+			out[i] = fill
+		}
+		bytespool.Release(out)
+	}
+	return true
+}
